@@ -74,6 +74,10 @@ def check(ctx):
     if pt is not None and pt[0] == "call" and pt[1] == "Ok" and len(pt[2]) == 1 and pt[2][0][0] == "call" and pt[2][0][1] == "Value::primitive" \
             and len(pt[2][0][2]) == 1 and pt[2][0][2][0][0] == "match" and show(pt[2][0][2][0][1]) == "A":
         table = pt[2][0][2][0]
+    elif pt is not None and pt[0] == "call" and pt[1] == "Ok" and len(pt[2]) == 1 and pt[2][0][0] == "match" and show(pt[2][0][1]) == "A" \
+            and all(g is None and (b[0] == "opaque" or (b[0] == "call" and b[1] == "Value::primitive" and len(b[2]) == 1)) for _p, g, b in pt[2][0][2]):
+        # the constructor applied in every arm instead of once around the table: the same table
+        table = ("match", pt[2][0][1], [(p_, g_, b_[2][0] if b_[0] == "call" else b_) for p_, g_, b_ in pt[2][0][2]])
     ctx.expect(table is not None, "C12.1", "arm/Primitive", site(parm) if parm is not None else site(m),
                "primitive -> Value::primitive(<width table over the primitive kind>)", "primitive arm: " + (show(pt)[:200] if pt is not None else "missing"))
     if table is not None:
